@@ -5,7 +5,7 @@
 (* with it (L2; differences are "drift"), and every property predicate of Props.tla *)
 (* is evaluated on the event (L3; failures are findings).  Nothing stops at the     *)
 (* first problem; the result is printed when the whole trace has been consumed.     *)
-EXTENDS Props, StoreOps
+EXTENDS PropsCase, StoreOps
 
 VARIABLES l,        \* next trace line
           st,       \* sid -> [lang, s, dead]: the specification's state of every live store
@@ -44,7 +44,7 @@ ProjDrift(s, line) ==
     \o (IF Has(P, "index_len") THEN Check(P.index_len = s.index.len, line, "L2", "index length differs") ELSE <<>>)
     \o Check((P.cache = <<>>) <=> (s.topIxs = <<>>), line, "L2", "cache presence differs")
     \o (IF P.cache # <<>> /\ s.topIxs # <<>>
-          THEN Check(P.cache[1] = Get(s.topIxs).ixs, line, "L2", "cache content differs") ELSE <<>>)
+          THEN Check(P.cache[1] = Get(s.topIxs).ixs /\ P.cache_limit[1] = Get(s.topIxs).limit, line, "L2", "cache content differs") ELSE <<>>)
 
 Step(res, newst, newdrift) ==
   /\ viol'  = viol \o [i \in DOMAIN res.f |-> [res.f[i] EXCEPT !.line = l] @@ [case |-> cs]]
@@ -112,7 +112,17 @@ SearchProps(S) ==
          JoinAll([i \in DOMAIN E.hits |-> C09Hit(E.hits[i], E, S, l)]),
          JoinAll([i \in DOMAIN E.hits |-> C05Hit(E.hits[i], E, S, l)]),
          C06Basic(E, S, l), C06Rel(E, S, l), C07Rel(E, S, l),
-         C10(E, S, l), C12(E, S, l) >>)
+         C10(E, S, l), C12(E, S, l),
+         IF Has(E, "expect") /\ Has(E, "qtok") THEN
+           CASE E.expect.prop = "C03" -> C03(E, S, l)
+             [] E.expect.prop = "C04" -> C04(E, S, l)
+             [] E.expect.prop = "C05" -> C05Prefix(E, S, l)
+             [] E.expect.prop = "C08" -> C08(E, S, l)
+             [] E.expect.prop = "C11" -> C11(E, S, mem, st, l)
+             [] E.expect.prop = "C13" -> C13(E, S, l)
+             [] E.expect.prop = "C14" -> C14(E, S, l)
+             [] OTHER -> NoRes
+         ELSE NoRes >>)
 
 TvSearch ==
   /\ E.op = "search" /\ Live(E.sid) /\ ~Has(E, "skipped")
@@ -122,7 +132,7 @@ TvSearch ==
           Step(SearchProps(S), WithS(E.sid, s2),
                Check(CacheAllowed(S.s), l, "L2", "cached top-rated list is not a top-`limit` list of the records")
                \o ProjDrift(s2, l))
-  /\ mem' = IF Has(E, "tag") /\ Has(E, "hits") THEN [x \in DOMAIN mem \cup {E.tag} |-> IF x = E.tag THEN E.hits ELSE mem[x]] ELSE mem
+  /\ mem' = IF Has(E, "tag") /\ Has(E, "hits") THEN [x \in DOMAIN mem \cup {E.tag} |-> IF x = E.tag THEN [hits |-> E.hits, q |-> E.q, sid |-> E.sid] ELSE mem[x]] ELSE mem
   /\ UNCHANGED cs
 
 TvNext ==
